@@ -366,7 +366,7 @@ func do_INPLACE_TRUE_DIVIDE(vm *Vm, arg int32) error {
 func do_INPLACE_MODULO(vm *Vm, arg int32) error {
 	b := vm.POP()
 	a := vm.TOP()
-	return vm.setTopAndCheckErr(py.Mod(a, b))
+	return vm.setTopAndCheckErr(py.IMod(a, b))
 }
 
 // Implements in-place TOS = TOS1 + TOS.
